@@ -104,18 +104,20 @@ def gen_tree(rng, depth, thorough=False, own=None):
         out[n] = ("F", n)
     if rng.random() < 0.5:
         out.setdefault("test_a.py", ("F", "test_a.py"))
-    if rng.random() < 0.4:
-        # a plain file with the name of a pruned / hidden / ordinary directory, with files and directories sorting before and after it
+    if rng.random() < 0.3:
+        # a plain file with the name of a pruned / hidden / ordinary directory, with files sorting directly before and after it (they take
+        # the place of other files: the trees keep their size)
         n = rng.choice(DIRLIKE_FILE_NAMES)
-        out.setdefault(n, ("F", n))
-        for m in (n[:-1] + "-.py", n + "0.py"):
-            if rng.random() < 0.6:
-                out.setdefault(m, ("F", m))
+        for m in [n] + [m for m in (n[:-1] + "-.py", n + "0.py") if rng.random() < 0.5]:
+            if m not in out:
+                if len(out) > 1:
+                    del out[rng.choice(sorted(out))]
+                out[m] = ("F", m)
     if depth > 0:
         nd = rng.randint(0, 4 if depth >= 3 else 3)
         names = rng.sample(DIR_NAMES, nd)
-        if rng.random() < 0.25:
-            names.append(rng.choice(FILELIKE_DIR_NAMES))      # a directory with the name of a (Python) file
+        if names and rng.random() < 0.25:
+            names[-1] = rng.choice(FILELIKE_DIR_NAMES)      # a directory with the name of a (Python) file
         if own and rng.random() < 0.3:
             names.append(own)       # a directory inside a directory of the same name
         for n in names:
@@ -438,7 +440,7 @@ def eval_cases(cases):
     # the cases on the big tree of part B2 print indices into the tree's file list (printing long paths is what costs in Coq)
     big = [c for c in cases if c.kind.startswith(BIG_KINDS)]
     small = [c for c in cases if not c.kind.startswith(BIG_KINDS)]
-    for group, shard in ((small, 60), (big, 30)):
+    for group, shard in ((big, 30), (small, 60)):      # the long jobs first
         for off in range(0, len(group), shard):
             chunk = group[off:off + shard]
             defs, items = [], []
@@ -720,12 +722,12 @@ def lattice_same_verdict(ck, cases, stats):
 # ---------------------------------------------------------------------------------------
 def skip_name_variants():
     """Every entry of file_reader.go's skip list as the code has it now (Gen/FileSelConst.v filesel_skip_dirs) as concrete names: a '*' of
-    the entry filled with 'x' and with nothing; as written and, unless hidden, upper-cased and capitalised (the list is matched
+    the entry filled with 'x' and with nothing; as written and, unless hidden, upper-cased (the list is matched
     case-insensitively, and the variants sort at different places among their siblings)."""
     out = []
     for s in gen_const("filesel_skip_dirs"):
         for n in ([s.replace("*", "x"), s.replace("*", "")] if "*" in s else [s]):
-            for v in ((n,) if n.startswith(".") else (n, n.upper(), n.capitalize())):      # a hidden name is hidden in every case
+            for v in ((n,) if n.startswith(".") else (n, n.upper())):      # a hidden name is hidden in every case
                 if v and v not in out and "/" not in v:
                     out.append(v)
     return out
@@ -734,47 +736,40 @@ def skip_name_variants():
 def wrongpos_dir(s):
     """Entries of one directory around the name s, which is held by a plain non-Python FILE: Python files and sub-directories that sort
     directly before it (s without its last character + '-...': '-' is smaller than every character a skip name ends in) and directly after it
-    (s + '...': s is a proper prefix), at the two ends of the byte order ('-0.py', '-d/' / '~z.py', '~d/'), s + '.py' / s + '.pyi' (Python
-    files called like the directory), a directory called like a Python file, a hidden file next to a hidden directory, and s once more as a
-    file one level down with siblings on both sides.  Nothing here is pruned by a FILE called s: the expected set is the specification's."""
+    (s + '...': s is a proper prefix), at the two ends of the byte order ('-0.py', '-d/' / '~z.py', '~d/'), s + '.py' (a Python file called
+    like the directory), a directory called like a Python file, a hidden file next to a hidden directory, and s again as a file one, two and
+    three levels down (~d/~d/~d) with siblings on both sides.  Nothing here is pruned by a FILE called s: the expected set is the specification's."""
     stem = s[:-1]
-    inner = [("F", stem + "-a.py"), ("F", s), ("F", s + "0.py"), ("D", s + "-sub", [("F", "w.py")]), ("F", "-0.py"), ("F", "~z.py")]
+
+    def inner(levels):
+        cs = [("F", stem + "-a.py"), ("F", s), ("F", s + "0.py"), ("D", s + "-sub", [("F", "w.py")])]
+        if levels > 1:
+            cs.append(("D", "~d", inner(levels - 1)))
+        return sorted(cs, key=lambda x: x[1].encode())
     cs = [("F", "-0.py"), ("D", "-d", [("F", "x.py")]),
           ("F", stem + "-b.py"), ("D", stem + "-d", [("F", "u.py")]),
           ("F", s),
-          ("F", s + ".py"), ("F", s + ".pyi"), ("F", s + "0.py"), ("D", s + "-d", [("F", "y.py"), ("F", "test_y.py")]),
-          ("D", "mod.py", [("F", "inner.py"), ("D", "z.pyi", [("F", "deep.py")])]),
-          ("F", ".hfile"), ("F", ".hfile.py"), ("D", ".hdir", [("F", "h.py")]), ("D", ".hfile-d", [("F", "h2.py")]),
-          ("F", "m.py"), ("F", "notes.txt"),
-          ("F", "~z.py"), ("D", "~d", inner)]
-    seen, out = set(), []
-    for c in cs:
-        if c[1] not in seen:
-            seen.add(c[1])
-            out.append(c if c[0] == "F" else ("D", c[1], sorted(c[2], key=lambda x: x[1].encode())))
-    return sorted(out, key=lambda c: c[1].encode())
-
-
-WRONGPOS_CHAIN = ["g1", "g2", "g3"]
+          ("F", s + ".py"), ("F", s + "0.py"), ("D", s + "-d", [("F", "test_y.py"), ("F", "y.py")]),
+          ("D", "mod.py", [("F", "inner.py")]),
+          ("F", ".hfile"), ("F", ".hfile.py"), ("D", ".hdir", [("F", "h.py")]),
+          ("F", "~z.py"), ("D", "~d", inner(3))]
+    return sorted(cs, key=lambda c: c[1].encode())
 
 
 def wrongpos_tree(base, variants):
-    """proj/g1/g2/g3/k<i>/ = wrongpos_dir(variant i); every level of the chain holds a Python file before and after the next directory."""
-    ks = [("D", "k%02d" % i, wrongpos_dir(s)) for i, s in enumerate(variants)]
-    level = sorted(ks + [("F", "aa.py"), ("F", "zz.py")], key=lambda c: c[1].encode())
-    for g in reversed(WRONGPOS_CHAIN):
-        level = sorted([("D", g, level), ("F", "aa.py"), ("F", "zz.py")], key=lambda c: c[1].encode())
+    """proj/k<i>/ = wrongpos_dir(variant i), between two Python files."""
+    level = sorted([("D", "k%02d" % i, wrongpos_dir(s)) for i, s in enumerate(variants)] + [("F", "aa.py"), ("F", "zz.py")], key=lambda c: c[1].encode())
     root = os.path.join(base, "wrongpos", "proj")
     materialize(root, level)
     return root, level
 
 
 def wrongpos_cases(ck, base, d_inc, d_exc, stats):
-    """The name s of the skip list held by a FILE at depth 0..5 below the target: every k<i> as the target (recursive and not; spelled '.',
-    from the project root, absolutely), the directories above them, and two k<i> in one target list."""
+    """The name s of the skip list held by a FILE at depth 0..3 below the target: every k<i> as the target (recursive and not; spelled '.',
+    from the project root, absolutely, through '..', with a trailing slash), its sub-directory ~d, and two k<i> in one target list.
+    (The project root as the target: through the command, part D, on a tree with some of the names — on this tree Coq would take seconds per case.)"""
     variants = skip_name_variants()
     root, children = wrongpos_tree(base, variants)
-    chain = tuple(WRONGPOS_CHAIN)
     cases = []
 
     def add(kind, cwd, targets, inc, exc, rec):
@@ -784,9 +779,9 @@ def wrongpos_cases(ck, base, d_inc, d_exc, stats):
         cases.append(c)
     cfgs = [(d_inc, d_exc), (["**"], []), (["*.py", "*.pyi"], ["test_*"])]
     for i, s in enumerate(variants):
-        parts = chain + ("k%02d" % i,)
-        tdir = os.path.join(root, *parts)
-        sps = [(tdir, "."), (root, "/".join(parts)), (os.path.join(root, "g1"), tdir), (os.path.join(tdir, "~d"), ".."), (root, "/".join(parts) + "/")]
+        k = "k%02d" % i
+        tdir = os.path.join(root, k)
+        sps = [(tdir, "."), (root, k), (os.path.join(root, "k00"), tdir), (os.path.join(tdir, "~d"), ".."), (root, k + "/")]
         inc, exc = cfgs[i % 3]
         cwd, sp = sps[i % 5]
         add("wrongpos-dir", cwd, [sp], inc, exc, True)
@@ -794,15 +789,8 @@ def wrongpos_cases(ck, base, d_inc, d_exc, stats):
         add("wrongpos-nonrecursive", cwd, [sp], inc, exc, False)
         cwd, sp = sps[(i + 1) % 5]
         add("wrongpos-below", cwd, [os.path.normpath(os.path.join(sp, "~d")) if sp != "." else "~d"], cfgs[(i + 1) % 3][0], cfgs[(i + 1) % 3][1], True)
-        j = (i + 7) % len(variants)
-        if j != i:
-            add("wrongpos-multi", os.path.join(root, *chain), ["k%02d" % i, "./k%02d/" % j], inc, exc, True)
-    for d in range(len(chain) + 1):
-        tp = chain[:d]
-        tdir = os.path.join(root, *tp) if tp else root
-        for k, (inc, exc) in enumerate(cfgs[:2]):
-            cwd, sp = (tdir, ".") if (d + k) % 2 else (root, "/".join(tp) if tp else ".")
-            add("wrongpos-above", cwd, [sp], inc, exc, True)
+        if i % 3 == 0:
+            add("wrongpos-multi", root, [k, "./k%02d/" % ((i + 7) % len(variants))], inc, exc, True)
     stats["wrongpos_names"] = len(variants)
     stats["wrongpos_files_named_like_a_pruned_directory"] = sum(1 for f in all_files(children) if f[-1] in variants)
     return cases
@@ -957,11 +945,10 @@ def e2e(ck, rng, n_trees, stats, d_inc, d_exc, thorough):
             stats["e2e_full_syntax_runs"] = stats.get("e2e_full_syntax_runs", 0) + 1
     # names in the wrong position (part B3) through the command: some names of the skip list held by plain files, judged from the project
     # root, from the directory above them and from their own directory
-    wvars = rng.sample(skip_name_variants(), 5 if not thorough else 12)
+    wvars = rng.sample(skip_name_variants(), 2 if not thorough else 12)
     wroot, wchildren = wrongpos_tree(os.path.join(base, "ew"), wvars)
-    wk = os.path.join(wroot, *WRONGPOS_CHAIN)
-    for cwd, tg in [(wroot, ["."]), (wroot, ["/".join(WRONGPOS_CHAIN)])] + [(os.path.join(wk, "k%02d" % i), ["."]) for i in range(len(wvars))][:(2 if not thorough else 12)] \
-            + [(wk, ["k%02d" % (len(wvars) - 1), "k%02d/~d" % (len(wvars) - 2)])]:
+    for cwd, tg in [(wroot, ["."])] + ([(wroot, ["k%02d" % (len(wvars) - 1), "k%02d/~d" % (len(wvars) - 2)])] if thorough else []) \
+            + [(os.path.join(wroot, "k%02d" % i), ["."]) for i in range(len(wvars) if thorough else 0)]:
         runs.append((98, wroot, wchildren, cwd, tg, d_inc, d_exc, True, None, None))
         stats["e2e_wrongpos_runs"] = stats.get("e2e_wrongpos_runs", 0) + 1
     # which configuration is in force for a run: the rule of C17 (--config, else the nearest file at or above the target, else none),
@@ -1148,7 +1135,7 @@ def links_part(ck, rng, stats, d_inc, d_exc, thorough):
         os.makedirs(outside, exist_ok=True)
         children = sorted(children, key=lambda c: c[1].encode())
         materialize_links(root, children, outside, [0])
-        for follow in ((None, False, True) if thorough or ti in (1, 3, 11, 12) else (rng.choice([None, False]), True)):
+        for follow in ((None, False, True) if thorough or ti in (1, 3) else (rng.choice([None, False]), True)):
             runs.append((ti, cause, root, children, follow))
     items = []
     for ti, cause, root, children, follow in runs:
@@ -1609,11 +1596,12 @@ def main(tier):
                 "escapes, **) x as the only exclude and as the only include x every target level (root, pkg, pkg/deep, pkg/deep/er, a; spelled "
                 "from the root and as '.' from inside): every (pattern, path) pair decided against spec_list, and for patterns without '/' "
                 "the same file must be selected through every target above it; names in the wrong position: for every entry of the code's "
-                "skip list (Gen/FileSelConst.v; '*' filled with 'x' and with nothing; as written, upper-cased, capitalised) a directory holding a plain "
+                "skip list (Gen/FileSelConst.v; '*' filled with 'x' and with nothing; as written and upper-cased) a directory holding a plain "
                 "non-Python FILE of that name, Python files and sub-directories sorting directly before and directly after it and at both ends of the "
-                "byte order, <name>.py / <name>.pyi, a directory called mod.py (with z.pyi/ inside), a hidden file next to hidden directories, and the "
-                "name once more as a file one level down, x the directory itself as target (recursive and not; '.', relative, absolute, '..', trailing "
-                "slash), its sub-directory, two of them in one target list, and the four directories above (the file at depth 0..5 below the target); "
+                "byte order, <name>.py, a directory called mod.py, a hidden file next to hidden directories, and the "
+                "name again as a file one, two and three levels down, x the directory itself as target (recursive and not; '.', relative, absolute, '..', "
+                "trailing slash), its sub-directory, two of them in one target list (the file at depth 0..3 below the target; from the project root "
+                "above them through pyscn analyze); "
                 "the generated trees also draw files called like pruned / hidden / ordinary directories (with neighbours on both sides) and "
                 "directories called like files; link trees with links (file / directory / dangling) called build, dist, env, venv, node_modules, "
                 "x.egg-info, __pycache__, .venv between Python files and directories; all decided against spec_list (proved = sel_spec), "
